@@ -2843,14 +2843,21 @@ impl<'de, 'e> de::Deserializer<'de> for YamlDeserializer<'de, 'e> {
                     .unwrap_or_else(|| self.ev.last_location());
                 let reference_location = self.ev.reference_location();
 
+                if !self.map_mode {
+                    // Bare `Variant`: there is no payload node. The events that follow belong to
+                    // the parent (the next sequence item, mapping entry or even document) and
+                    // must not be consumed: present an absent (unit) payload instead.
+                    let location = self.ev.last_location();
+                    return seed
+                        .deserialize(serde::de::value::UnitDeserializer::<Error>::new())
+                        .map_err(|e| e.with_location(location));
+                }
                 let value = seed
                     .deserialize(YamlDeserializer::new(self.ev, self.cfg))
                     .map_err(|e| {
                         attach_alias_locations_if_missing(e, reference_location, defined_location)
                     })?;
-                if self.map_mode {
-                    self.expect_map_end()?;
-                }
+                self.expect_map_end()?;
                 Ok(value)
             }
 
@@ -2859,11 +2866,17 @@ impl<'de, 'e> de::Deserializer<'de> for YamlDeserializer<'de, 'e> {
             where
                 Vv: Visitor<'de>,
             {
+                if !self.map_mode {
+                    // Bare `Variant` has no payload; do not read the parent's next node.
+                    return Err(de::Error::invalid_type(
+                        de::Unexpected::UnitVariant,
+                        &"tuple variant",
+                    ))
+                    .map_err(|e: Error| e.with_location(self.ev.last_location()));
+                }
                 let result =
                     YamlDeserializer::new(self.ev, self.cfg).deserialize_tuple(len, visitor)?;
-                if self.map_mode {
-                    self.expect_map_end()?;
-                }
+                self.expect_map_end()?;
                 Ok(result)
             }
 
@@ -2876,11 +2889,17 @@ impl<'de, 'e> de::Deserializer<'de> for YamlDeserializer<'de, 'e> {
             where
                 Vv: Visitor<'de>,
             {
+                if !self.map_mode {
+                    // Bare `Variant` has no payload; do not read the parent's next node.
+                    return Err(de::Error::invalid_type(
+                        de::Unexpected::UnitVariant,
+                        &"struct variant",
+                    ))
+                    .map_err(|e: Error| e.with_location(self.ev.last_location()));
+                }
                 let result = YamlDeserializer::new(self.ev, self.cfg)
                     .deserialize_struct("", fields, visitor)?;
-                if self.map_mode {
-                    self.expect_map_end()?;
-                }
+                self.expect_map_end()?;
                 Ok(result)
             }
         }
